@@ -100,10 +100,14 @@ def why_embed(ei, npre, nsuf, w0, w1, w2, w3, tsi, latent):
 
 # ------------------------------------------------------------------ C10
 
-WORDS10 = ["meet", "bob", "follow-up", "Q3"]
-TAGS10 = ["#a", "#tag_1", "#x-y", "#_k9"]
-SEPS10 = [" ", "  ", ", ", " (", ") ", "; "]
-TIME10 = ["tomorrow", "friday 8pm", "12.03.2021"]
+NW10 = int(os.environ.get("VQ_NW10", "2"))
+NT10 = int(os.environ.get("VQ_NT10", "2"))
+NS10 = int(os.environ.get("VQ_NS10", "3"))
+NTI10 = int(os.environ.get("VQ_NTI10", "2"))
+WORDS10 = ["follow-up", "bob", "meet", "Q3"][:NW10]
+TAGS10 = ["#tag_1", "#x-y", "#a", "#_k9"][:NT10]
+SEPS10 = [" ", ", ", ") ", "  ", " (", "; "][:NS10]
+TIME10 = ["tomorrow", "friday 8pm", "12.03.2021"][:NTI10]
 
 
 def subject_check(parts, tpos, ti, ts):
@@ -136,6 +140,9 @@ def subject_check(parts, tpos, ti, ts):
     return True, ""
 
 
+NA10 = max(NW10, NT10)
+
+
 def _mk_parts(k0, a0, s0, k1, a1, s1, k2, a2, s2, n):
     out = []
     for k, a, s in ((k0, a0, s0), (k1, a1, s1), (k2, a2, s2))[:n]:
@@ -146,15 +153,16 @@ def _mk_parts(k0, a0, s0, k1, a1, s1, k2, a2, s2, n):
 
 def ob_subject(n: int, k0: bool, a0: int, s0: int, k1: bool, a1: int, s1: int, k2: bool, a2: int, s2: int, tpos: int, ti: int) -> bool:
     """
-    pre: 1 <= n <= 3 and 0 <= a0 < 4 and 0 <= a1 < 4 and 0 <= a2 < 4 and 0 <= s0 < 6 and 0 <= s1 < 6 and 0 <= s2 < 6
-    pre: 0 <= tpos <= n and 0 <= ti < 3
-    pre: (n > 2 or (not k2 and a2 == 0 and s2 == 0)) and (n > 1 or (not k1 and a1 == 0 and s1 == 0))
+    pre: 1 <= n <= 2 and 0 <= a0 < NA10 and 0 <= a1 < NA10 and a2 == 0 and 0 <= s0 < NS10 and 0 <= s1 < NS10 and s2 == 0 and not k2
+    pre: (k0 or a0 < NW10) and (not k0 or a0 < NT10) and (k1 or a1 < NW10) and (not k1 or a1 < NT10)
+    pre: 0 <= tpos <= n and 0 <= ti < NTI10
+    pre: (n > 1 or (not k1 and a1 == 0 and s1 == 0))
     post: _
     """
     with NoTracing():
-        parts = _mk_parts(bool(_pick(k0, 2)), _pick(a0, 4), _pick(s0, 6), bool(_pick(k1, 2)), _pick(a1, 4), _pick(s1, 6),
-                          bool(_pick(k2, 2)), _pick(a2, 4), _pick(s2, 6), _pick(n, 4))
-        return subject_check(parts, _pick(tpos, 4), _pick(ti, 3), TSS[0])[0]
+        parts = _mk_parts(bool(_pick(k0, 2)), _pick(a0, NA10), _pick(s0, NS10), bool(_pick(k1, 2)), _pick(a1, NA10), _pick(s1, NS10),
+                          False, 0, 0, _pick(n, 3))
+        return subject_check(parts, _pick(tpos, 3), _pick(ti, NTI10), TSS[0])[0]
 
 
 def why_subject(n, k0, a0, s0, k1, a1, s1, k2, a2, s2, tpos, ti):
@@ -184,19 +192,26 @@ def norm_check(expr, sep, dash, case, lead, trail, ts):
     return True, ""
 
 
-def ob_norm(ei: int, si: int, di: int, ci: int, li: int, tri: int) -> bool:
+NSEP11 = int(os.environ.get("VQ_NSEP11", "6"))
+NDASH11 = int(os.environ.get("VQ_NDASH11", "3"))
+
+
+def ob_norm(ei: int, si: int, di: int, ci: int, ends: bool) -> bool:
     """
-    pre: 0 <= ei < NE11 and 0 <= si < 10 and 0 <= di < 6 and 0 <= ci < 3 and 0 <= li < 10 and 0 <= tri < 10
-    pre: li == 0 or tri == 0 or li == tri
+    pre: 0 <= ei < NE11 and 0 <= si < NSEP11 and 0 <= di < NDASH11 and 0 <= ci < 3
     post: _
     """
     with NoTracing():
-        lead = SEPVARS[_pick(li, 10)]
-        trail = SEPVARS[_pick(tri, 10)]
-        return norm_check(EXPRS11[_pick(ei, NE11)], SEPVARS[_pick(si, 10)], DASHES[_pick(di, 6)], CASES[_pick(ci, 3)],
-                          "" if lead == " " else lead, "" if trail == " " else trail, TSS[0])[0]
+        e = EXPRS11[_pick(ei, NE11)]
+        s_ = _pick(si, NSEP11)
+        d_ = _pick(di, NDASH11) if " - " in e else 0
+        en = bool(_pick(ends, 2))
+        return norm_check(e, SEPVARS[s_], DASHES[d_], CASES[_pick(ci, 3)], SEPVARS[s_] if en and SEPVARS[s_] != " " else "",
+                          SEPVARS[s_] if en and SEPVARS[s_] != " " else "", TSS[0])[0]
 
 
-def why_norm(ei, si, di, ci, li, tri):
-    lead, trail = SEPVARS[li], SEPVARS[tri]
-    return norm_check(EXPRS11[ei], SEPVARS[si], DASHES[di], CASES[ci], "" if lead == " " else lead, "" if trail == " " else trail, TSS[0])[1]
+def why_norm(ei, si, di, ci, ends):
+    e = EXPRS11[ei]
+    d_ = di if " - " in e else 0
+    x = SEPVARS[si] if ends and SEPVARS[si] != " " else ""
+    return norm_check(e, SEPVARS[si], DASHES[d_], CASES[ci], x, x, TSS[0])[1]
